@@ -42,8 +42,8 @@ CLAIMS.update({
     "C16": dict(text="Proof: C16_setters (every setter x every value x both modes x every state: one AUDIT_SET, REQUEST|ACK, full-size UAPI struct with exactly the mask bit and value), C16_from_wire (every buffer: EOF below 32 bytes, else the eleven UAPI words with zero fill, trailing bytes ignored), C16_layout and C16_constants over generated offsets/constants. "
                      "The failure-mode constants are a known finding (all 0), stated as a two-way disjunction so that a third value fails.",
                 note=CLIENT_NOTE, technique="Coq proofs over generated layout/constants against a hand-written UAPI spec + correspondence", design="6 C16"),
-    "C17": dict(text="Proof: C17_close_at_most_once for every operation sequence, kernel script and fault script; C17_first_close (PID cleared iff SetPID was used, before the socket close); C17_wait_consumes_once_in_order (acknowledged pending requests are consumed once, in order; a second call consumes nothing). "
-                     "Partial: the first-error clause and the copy of rule data are decided on every implementation run (rules are read back after later traffic reused the receive buffer); concurrent Close is a runtime fact supported by close storms.",
+    "C17": dict(text="Proof: C17_close_at_most_once for every operation sequence, kernel script and fault script; C17_first_close (PID cleared iff SetPID was used, before the socket close); C17_wait_consumes_once_in_order (acknowledged pending requests are consumed once, in order; a second call consumes nothing); C17_wait_returns_first_error (the first kernel error is returned, the ACKs before it consumed, the failed request dropped from the list, later ones left pending). "
+                     "Partial: the copy of rule data is decided on every implementation run (rules are read back after later traffic reused the receive buffer); concurrent Close is a runtime fact supported by close storms.",
                 note=CLIENT_NOTE + " PARTIAL: sync.Once under real concurrency is runtime; first-kernel-error clause checked on traces.", technique="Coq invariant proofs over all operation sequences + simulated-kernel correspondence", design="6 C17"),
     "C19": dict(text="Proof: C19_timeout_and_close_on_traces (the checker the judge evaluates on recorded histories - oldest remaining event not stale after every Maintain/Push, no delivery without cause, first Close succeeds and leaves nothing, later Maintain/Close return the error without callbacks - accepts every run of the model for every timeout and clock reading; same simulation as C10), C19_head_not_stale (what CleanUp leaves at the head is not expired: a stale event goes in the first call whose clock reading is past its expiry once it is the oldest), C19_no_early_timeout (an incomplete event within the bound is evicted only at a reading past its expiry), C19_expiry_fixed_at_open (expiry = reading of the opening Put + timeout, never refreshed), for every timeout and clock reading; C19_closed_is_final, C19_first_close_succeeds, flush-on-Close via chk_C01. On observed traces the timeout clauses are decided with real sleeps by the trace walker and by model agreement.",
                 note=REASM_NOTE + " PARTIAL: that time.Now() advances as the model's clock input is a runtime fact (30 ms timeouts, 70 ms real sleeps, stamps around every call; undecided comparisons discarded).", technique="Coq proofs (Close) + trace checker with real sleeps + correspondence", design="6 C19"),
